@@ -24,6 +24,7 @@ pub enum CompareResult {
 pub fn parse_version(version: &str) -> Option<Version> {
     // Strip version range prefixes and 'v' prefix
     let stripped = version
+        .trim_start_matches("~=")
         .trim_start_matches(">=")
         .trim_start_matches("<=")
         .trim_start_matches('>')
